@@ -283,7 +283,14 @@ class _AuthMiddleware:
         exempt = (
             req.method == "OPTIONS"
             or req.path.startswith("/.well-known/")
-            or any(req.path.startswith(pfx) for pfx in self._exempt_prefixes)
+            # An entry ending in "/" exempts a subtree ({prefix}/_oauth/...); any
+            # other entry names one endpoint ({prefix}/health) and must match
+            # exactly, or {prefix}/healthz and {prefix}/health/init -- ordinary
+            # RPC routes for methods that merely share the prefix -- would be
+            # dispatched without authentication.
+            or any(
+                (req.path.startswith(pfx) if pfx.endswith("/") else req.path == pfx) for pfx in self._exempt_prefixes
+            )
         )
         if self._authenticate is None or exempt:
             tc = _TransportContext(auth=_ANONYMOUS, transport_metadata=transport_metadata)
